@@ -6,7 +6,7 @@ EXPLANATION = ('symx executes the real BaseDurationParser.parse (+ resolution bu
 ASSUMPTIONS = ['the cardinal extractor / number parser inside the duration parser are stubs returning the symbolic amount for a one-character numeral',
                'float() of an integer amount is exact (N x unit <= 5000 x 31536000 < 2**53), so the symbolic integer stands for the double',
                'the inner date extractor/parser of the period parser are stubs returning two absolute dates at fixed spans; the range text is "from aaaa to bbbb"']
-OUTSIDE = ['fractional amounts ("and a half")', '"every range entity produced on the Specs inputs" (corpus replay)',
+OUTSIDE = ['fractional amounts ("and a half")', 'range entities of Specs inputs whose symbolic exploration does not finish at screening time (harness/c11_inputs*.json, "slow")',
            'decade/quarter/fortnight/weekend units']
 B = 'recognizers_date_time.date_time.'
 
@@ -38,4 +38,16 @@ def obligations(tier):
               bounds='begin = every minute of every day 1900..2086; end = begin + 1..20000 minutes (both sides dated) or any clock time later on that day (one side dated)',
               encodes=[B + 'base_datetimeperiod:BaseDateTimePeriodParser.merge_two_time_points', B + 'utilities:DateTimeFormatUtil.luis_time_span'],
               stubs=['date-time / time extractors return fixed spans; their parsers return the symbolic instants with their TIMEX (C06/C07 decide the real ones)'])]
+    from props import _corpus
+    import json as _json
+    slices, counts, _ = _corpus.slices(tier, 'arith', tag='range3', quick_step=6, quick_cap=14)
+    obs.append(Ob('O10.7-corpus-range-arithmetic', 'sx', 'harness.apidt:h_wellformed', twin=None, slices=slices, timeout=90 if tier == 'quick' else 240,
+                  descr='API level, symbolic reference datetime: on the DateTimeModel Specs inputs of each culture that yield a (start,end,duration) TIMEX (inputs only; expected outputs not consulted), for EVERY reference '
+                        'datetime: whenever both endpoints of the TIMEX are definite, end minus start equals the stated duration (days, weeks, months / years between like days, hours / minutes / seconds; a time range may cross midnight)',
+                  bounds=_corpus.REF + '; inputs per culture %s' % _json.dumps(counts), encodes=_corpus.ENC, stubs=_corpus.STUBS))
+    region = _corpus.regions('C10')
+    for fid in sorted(region):
+        obs.append(Ob('O10.7-known-' + fid, 'sx', 'harness.apidt:h_wellformed', twin=None, slices=region[fid], timeout=90 if tier == 'quick' else 240, finding=fid,
+                      descr='the same exploration on the inputs whose counterexample is the recorded finding %s (identified by input): reported as KNOWN-FINDING while open' % fid,
+                      bounds=_corpus.REF + '; %d inputs' % len(region[fid]), encodes=_corpus.ENC))
     return obs
